@@ -10,23 +10,43 @@ use qrlew::{builder::{Ready, With}, differential_privacy::DpParameters, hierarch
 use serde_json::{json, Value as J};
 use std::sync::Arc;
 
-/// ta(pu, k, x), tb(pu, k, y): protected, the privacy unit is the column pu; pp(k, w): public
-fn world() -> Hierarchy<Arc<Relation>> {
-    let t = |name: &str, c: &str| -> Relation { Relation::table().name(name).schema(vec![("pu", DataType::integer_interval(0, 5)), ("k", DataType::integer_interval(0, 3)), (c, DataType::optional(DataType::integer_interval(-3, 3)))].into_iter().collect::<qrlew::relation::Schema>()).size(100).build() };
+/// ta(pu, k, x), tb(pu, k, y): protected, the privacy unit is the column pu; pp(k, w): public.
+/// styles: `own` (unit = pu, hashed), `nohash` (unit = pu, not hashed), `weight` (unit = pu with the weight column wt),
+/// `fk` (ta's unit is its row id rid; tc(r, k, z) is protected through the nullable foreign key r -> ta.rid)
+fn world(style: &str) -> Hierarchy<Arc<Relation>> {
+    let t = |name: &str, c: &str| -> Relation {
+        let mut cols = vec![("pu", DataType::integer_interval(0, 5)), ("k", DataType::integer_interval(0, 3)), (c, DataType::optional(DataType::integer_interval(-3, 3)))];
+        if style == "weight" { cols.push(("wt", DataType::integer_interval(1, 3))); }
+        if style == "fk" && name == "ta" { cols.push(("rid", DataType::integer_interval(0, 20))); }
+        Relation::table().name(name).schema(cols.into_iter().collect::<qrlew::relation::Schema>()).size(100).build() };
     let pp: Relation = Relation::table().name("pp").schema(vec![("k", DataType::integer_interval(0, 3)), ("w", DataType::integer_interval(0, 9))].into_iter().collect::<qrlew::relation::Schema>()).size(100).build();
-    vec![(vec!["ta".to_string()], Arc::new(t("ta", "x"))), (vec!["tb".to_string()], Arc::new(t("tb", "y"))), (vec!["pp".to_string()], Arc::new(pp))].into_iter().collect()
+    let mut v = vec![(vec!["ta".to_string()], Arc::new(t("ta", "x"))), (vec!["tb".to_string()], Arc::new(t("tb", "y"))), (vec!["pp".to_string()], Arc::new(pp))];
+    if style == "fk" {
+        let tc: Relation = Relation::table().name("tc").schema(vec![("r", DataType::optional(DataType::integer_interval(0, 20))), ("k", DataType::integer_interval(0, 3)), ("z", DataType::optional(DataType::integer_interval(-3, 3)))].into_iter().collect::<qrlew::relation::Schema>()).size(100).build();
+        v.push((vec!["tc".to_string()], Arc::new(tc)));
+    }
+    v.into_iter().collect()
+}
+
+fn privacy_unit(style: &str) -> PrivacyUnit {
+    match style {
+        "nohash" => PrivacyUnit::from((vec![("ta", vec![], "pu"), ("tb", vec![], "pu")], false)),
+        "weight" => PrivacyUnit::from(vec![("ta", vec![], "pu", "wt"), ("tb", vec![], "pu", "wt")]),
+        "fk" => PrivacyUnit::from(vec![("ta", vec![], "rid"), ("tb", vec![], "pu"), ("tc", vec![("r", "ta", "rid")], "rid")]),
+        _ => PrivacyUnit::from(vec![("ta", vec![], "pu"), ("tb", vec![], "pu")]),
+    }
 }
 
 /// a tree as nested arrays (the driver reads the same encoding); every node exposes two integer columns c0, c1
-fn gen_tree(rng: &mut Rng, depth: u32) -> J {
-    if depth == 0 || rng.chance(1, 4) { return json!(["table", rng.below(2)]); }
+fn gen_tree(rng: &mut Rng, depth: u32, nt: u64) -> J {
+    if depth == 0 || rng.chance(1, 4) { return json!(["table", rng.below(nt)]); }
     match rng.below(8) {
-        0 | 1 => json!(["map", rng.below(2), rng.range(-2, 2), rng.below(2), rng.range(-2, 2), gen_tree(rng, depth - 1)]),
-        2 => json!(["filter", rng.below(2), rng.range(-2, 2), gen_tree(rng, depth - 1)]),
-        3 => json!(["join", rng.below(2), rng.below(2), rng.below(2), rng.below(2), gen_tree(rng, depth - 1), gen_tree(rng, depth - 1)]),
-        4 => json!(["joinpub", rng.below(2), rng.below(2), rng.chance(1, 2), gen_tree(rng, depth - 1)]),
-        5 => json!(["union", rng.chance(1, 2), gen_tree(rng, depth - 1), gen_tree(rng, depth - 1)]),
-        _ => json!(["reduce", rng.below(2), rng.below(2), rng.chance(1, 3), gen_tree(rng, depth - 1)]),
+        0 | 1 => json!(["map", rng.below(2), rng.range(-2, 2), rng.below(2), rng.range(-2, 2), gen_tree(rng, depth - 1, nt)]),
+        2 => json!(["filter", rng.below(2), rng.range(-2, 2), gen_tree(rng, depth - 1, nt)]),
+        3 => json!(["join", rng.below(2), rng.below(2), rng.below(2), rng.below(2), gen_tree(rng, depth - 1, nt), gen_tree(rng, depth - 1, nt)]),
+        4 => json!(["joinpub", rng.below(2), rng.below(2), rng.chance(1, 2), gen_tree(rng, depth - 1, nt)]),
+        5 => json!(["union", rng.chance(1, 2), gen_tree(rng, depth - 1, nt), gen_tree(rng, depth - 1, nt)]),
+        _ => json!(["reduce", rng.below(2), rng.below(2), rng.chance(1, 3), gen_tree(rng, depth - 1, nt)]),
     }
 }
 
@@ -34,7 +54,7 @@ fn gen_tree(rng: &mut Rng, depth: u32) -> J {
 fn emit(t: &J, ctes: &mut Vec<String>) -> String {
     let a = t.as_array().unwrap();
     let body = match a[0].as_str().unwrap() {
-        "table" => if a[1] == 0 { "SELECT k AS c0, x AS c1 FROM ta".to_string() } else { "SELECT k AS c0, y AS c1 FROM tb".to_string() },
+        "table" => if a[1] == 0 { "SELECT k AS c0, x AS c1 FROM ta".to_string() } else if a[1] == 1 { "SELECT k AS c0, y AS c1 FROM tb".to_string() } else { "SELECT k AS c0, z AS c1 FROM tc".to_string() },
         "map" => { let i = emit(&a[5], ctes); format!("SELECT c{} + {} AS c0, c{} + {} AS c1 FROM {i}", a[1], a[2], a[3], a[4]) }
         "filter" => { let i = emit(&a[3], ctes); format!("SELECT c0 AS c0, c1 AS c1 FROM {i} WHERE c{} > {}", a[1], a[2]) }
         "join" => { let l = emit(&a[5], ctes); let r = emit(&a[6], ctes); format!("SELECT l.c{} AS c0, r.c{} AS c1 FROM {l} AS l JOIN {r} AS r ON l.c{} = r.c{}", a[3], a[4], a[1], a[2]) }
@@ -48,13 +68,26 @@ fn emit(t: &J, ctes: &mut Vec<String>) -> String {
 }
 
 pub fn gen(rng: &mut Rng, _k: usize, _tier: &str) -> J {
+    let style = *rng.pick(&["own", "own", "nohash", "weight", "fk", "fk"]);
     let depth = 1 + rng.below(3) as u32;
-    let tree = gen_tree(rng, depth);
-    let table = |rng: &mut Rng| -> Vec<J> { (0..rng.below(9)).map(|_| json!([rng.below(4), rng.below(4), if rng.chance(1, 8) { J::Null } else { json!(rng.range(-3, 3)) }])).collect() };
-    let (ta, tb) = (table(rng), table(rng));
+    let tree = gen_tree(rng, depth, if style == "fk" { 3 } else { 2 });
+    // raw rows: ta / tb = [pu, k, x|null, extra] where extra is the weight (style weight) or, for ta, the row id (style fk)
+    let mut next_rid = 0i64;
+    let mut table = |rng: &mut Rng, is_ta: bool| -> Vec<J> { (0..rng.below(9)).map(|_| { let extra = if style == "weight" { json!(rng.range(1, 3)) } else if style == "fk" && is_ta { next_rid += 1 + rng.below(2) as i64; json!(next_rid) } else { J::Null };
+        json!([rng.below(4), rng.below(4), if rng.chance(1, 8) { J::Null } else { json!(rng.range(-3, 3)) }, extra]) }).collect() };
+    let ta = table(rng, true); let tb = table(rng, false);
+    // tc rows refer to a row id of ta, to no row at all (dangling), or to nothing (NULL)
+    let rids: Vec<i64> = ta.iter().filter_map(|r| r[3].as_i64()).collect();
+    let tc: Vec<J> = if style == "fk" { (0..rng.below(9)).map(|_| { let r = if rng.chance(1, 8) { J::Null } else if rng.chance(1, 8) || rids.is_empty() { json!(19) } else { json!(*rng.pick(&rids)) };
+        json!([r, rng.below(4), if rng.chance(1, 8) { J::Null } else { json!(rng.range(-3, 3)) }]) }).collect() } else { vec![] };
     let mut pp: Vec<J> = vec![];
     for k in 0..4 { if rng.chance(2, 3) { let n = if rng.chance(1, 5) { 2 } else { 1 }; for _ in 0..n { pp.push(json!([k, rng.below(10)])); } } }
-    json!({"tree": tree, "ta": ta, "tb": tb, "pp": pp})
+    // what the privacy-unit definition assigns to every protected row: (unit, weight, c0, c1); rows owned by nobody are not tracked
+    let tracked_of = |rows: &Vec<J>, which: usize| -> Vec<J> { rows.iter().filter_map(|r| {
+        let (unit, w) = match (style, which) { ("fk", 0) => (r[3].as_i64(), 1), ("fk", 2) => (r[0].as_i64().filter(|x| rids.contains(x)), 1), ("weight", _) => (r[0].as_i64(), r[3].as_i64().unwrap_or(1)), _ => (r[0].as_i64(), 1) };
+        unit.map(|u| json!([u, w, r[1], r[2]])) }).collect() };
+    let tracked = json!([tracked_of(&ta, 0), tracked_of(&tb, 1), tracked_of(&tc, 2)]);
+    json!({"tree": tree, "style": style, "ta": ta, "tb": tb, "tc": tc, "pp": pp, "tracked": tracked})
 }
 
 fn cells(rows: &J, nullable_last: bool) -> Vec<Vec<Cell>> {
@@ -68,20 +101,33 @@ pub fn eval(case: &J) -> Outcome {
     let sql = format!("WITH {} SELECT c0 AS c0, c1 AS c1 FROM {top}", ctes.join(", "));
     let kind = |t: &J| -> Vec<String> { fn walk(t: &J, acc: &mut Vec<String>) { if let Some(a) = t.as_array() { if let Some(s) = a[0].as_str() { acc.push(s.to_string()); for x in &a[1..] { if x.is_array() { walk(x, acc); } } } } } let mut v = vec![]; walk(t, &mut v); v };
     for k in kind(&case["tree"]) { out.tag(&format!("op={k}")); }
-    let rels = world();
+    let style = case["style"].as_str().unwrap_or("own");
+    out.tag(&format!("style={style}"));
+    let rels = world(style);
     let rel = match guarded(|| { let q = parse(&sql).map_err(|e| e.to_string())?; Relation::try_from(QueryWithRelations::new(&q, &rels)).map_err(|e| e.to_string()) }) {
         Ok(Ok(r)) => r, Ok(Err(e)) => { out.tag("trivial"); out.tag("compile-err"); out.aux = json!({"sql": sql, "err": e}); return out; }
         Err((loc, msg)) => { out.tag("trivial"); out.fail(&format!("C18/pup/compile-panic/{}", site(&loc, &msg)), format!("{sql}: {msg}")); return out; } };
-    let pu = PrivacyUnit::from(vec![("ta", vec![], "pu"), ("tb", vec![], "pu")]);
+    let pu = privacy_unit(style);
     let pup = match guarded(|| rel.rewrite_as_privacy_unit_preserving(&rels, None, pu.clone(), DpParameters::from_epsilon_delta(1.0, 1e-4), Some(Strategy::Hard))) {
         Ok(Ok(d)) => d, Ok(Err(e)) => { out.tag("trivial"); out.tag("pup-refused"); out.aux = json!({"sql": sql, "err": e.to_string()}); return out; }
         Err((loc, msg)) => { out.tag("trivial"); out.fail(&format!("C18/pup/rewrite-panic/{}", site(&loc, &msg)), format!("{sql}: {msg}")); return out; } };
     let facts = ir::facts(pup.relation());
     if !facts.noises.is_empty() || !facts.taus.is_empty() { out.tag("trivial"); out.tag("inner-dp"); out.aux = json!({"sql": sql}); return out; }
     let db = crate::exec::Db::new(RandomMode::Const(0.25));
-    db.create_table("ta", &["pu", "k", "x"], &cells(&case["ta"], true));
-    db.create_table("tb", &["pu", "k", "y"], &cells(&case["tb"], true));
-    db.create_table("pp", &["k", "w"], &cells(&case["pp"], false));
+    // the unit that owns a raw row (None: nobody — a NULL or dangling foreign key), and the loader of a (possibly restricted) database
+    let rids: Vec<i64> = case["ta"].as_array().unwrap().iter().filter_map(|r| r[3].as_i64()).collect();
+    let owner = |which: usize, r: &J| -> Option<i64> { match (style, which) { ("fk", 0) => r[3].as_i64(), ("fk", 2) => r[0].as_i64().filter(|x| rids.contains(x)), _ => r[0].as_i64() } };
+    let load = |db: &crate::exec::Db, keep: &dyn Fn(usize, &J) -> bool| {
+        let sel = |name: &str, which: usize| -> J { J::Array(case[name].as_array().unwrap().iter().filter(|r| keep(which, r)).cloned().collect()) };
+        let cut = |rows: J, n: usize| -> Vec<Vec<Cell>> { cells(&rows, true).into_iter().map(|r| r[..n].to_vec()).collect() };
+        match style {
+            "weight" => { db.create_table("ta", &["pu", "k", "x", "wt"], &cut(sel("ta", 0), 4)); db.create_table("tb", &["pu", "k", "y", "wt"], &cut(sel("tb", 1), 4)); }
+            "fk" => { db.create_table("ta", &["pu", "k", "x", "rid"], &cut(sel("ta", 0), 4)); db.create_table("tb", &["pu", "k", "y"], &cut(sel("tb", 1), 3)); db.create_table("tc", &["r", "k", "z"], &cut(sel("tc", 2), 3)); }
+            _ => { db.create_table("ta", &["pu", "k", "x"], &cut(sel("ta", 0), 3)); db.create_table("tb", &["pu", "k", "y"], &cut(sel("tb", 1), 3)); }
+        }
+        db.create_table("pp", &["k", "w"], &cells(&case["pp"], false));
+    };
+    load(&db, &|_, _| true);
     match db.run(pup.relation()) {
         Ok((names, res)) => {
             let idx = |n: &str| names.iter().position(|x| x == n);
@@ -93,12 +139,11 @@ pub fn eval(case: &J) -> Outcome {
             // property-level oracle (C05) on the implementation itself: the rows of unit u on D are the rows on D restricted to u
             let render = |res: &Vec<Vec<Cell>>| -> Vec<String> { let mut v: Vec<String> = res.iter().map(|r| format!("{}|{}|{}|{}", show(&r[pi]), show(&r[wi]), show(&r[i0]), show(&r[i1]))).collect(); v.sort(); v };
             let top_op = case["tree"][0].as_str().unwrap_or("?").to_string();
-            for u in 0..4i64 {
-                let only = |rows: &J| -> Vec<Vec<Cell>> { cells(rows, true).into_iter().filter(|r| r[0] == Cell::Int(u)).collect() };
+            let all_units: std::collections::BTreeSet<i64> = (0..3).flat_map(|w| case[["ta", "tb", "tc"][w]].as_array().unwrap().iter().filter_map(move |r| owner(w, r)).collect::<Vec<_>>()).collect();
+            if let Some(r) = rows.iter().find(|r| r.starts_with("null|") || r.split('|').nth(1) == Some("null")) { out.fail(&format!("C05/pup/null-unit/{style}"), format!("{sql}: an output row has no privacy unit or weight: {r} (ta {}, tb {}, tc {})", case["ta"], case["tb"], case["tc"])); }
+            for u in all_units {
                 let dbu = crate::exec::Db::new(RandomMode::Const(0.25));
-                dbu.create_table("ta", &["pu", "k", "x"], &only(&case["ta"]));
-                dbu.create_table("tb", &["pu", "k", "y"], &only(&case["tb"]));
-                dbu.create_table("pp", &["k", "w"], &cells(&case["pp"], false));
+                load(&dbu, &|which, r| owner(which, r) == Some(u));
                 if let Ok((_, resu)) = dbu.run(pup.relation()) {
                     let pre = format!("{u}|");
                     let mine: Vec<String> = rows.iter().filter(|r| r.starts_with(&pre)).cloned().collect();
